@@ -260,6 +260,9 @@ func (b *builder) attrValue() *gen.Node {
 func (b *builder) defFunc(d int) []*gen.Node {
 	st := b.g.FuncStmt(d)
 	for _, n := range st {
+		if n.K == "func" && len(n.Kids) == 1 && b.intn(8, "emptyBody") == 0 {
+			n.Kids[0] = gen.Block() // func f(…) {}: does nothing, gives null
+		}
 		if n.K == "func" {
 			b.fns = append(b.fns, fnInfo{Name: n.S, Arity: len(n.Names)})
 		}
